@@ -1,7 +1,8 @@
 """C08: LiteDRAMNativePortCDC (frontend/adapter.py: three stream.ClockDomainCrossing = migen AsyncFIFO) vs
 Model/AsyncFifo.lean, in Migen's two-clock simulation with random period pairs and phases, edge by edge; and the stream
 specification (Spec/FifoSpec.lean) per channel on the real module: every command, write word and read word is delivered
-exactly once and in order."""
+exactly once and in order.  Plus the composition `LiteDRAMCrossbar.get_port(clock_domain, data_width)` builds (CDC + width converter
++ real crossbar) over a behavioural controller, judged at the user port against byte-level memory semantics (`getport_job`)."""
 import random
 from vlib import core
 from vlib.core import Result
@@ -9,10 +10,16 @@ from vlib.core import Result
 RULE = ("clock period pairs from {2..30} (equal, integer and non-integer ratios, coprime = drifting) x phases, FIFO depths cmd {4,8}, "
         "wdata/rdata {4,8,16}; traffic: valid held until ready on all three channels with random gaps, random and bursty "
         "back-pressure on the other side; a case = one clock edge of either domain with that domain's outputs compared; "
-        "non-trivial = a handshake at that edge; distinct by (run, instant)")
+        "non-trivial = a handshake at that edge; distinct by (run, instant).  get_port scenario: user widths {8..128} on 32/64-bit controllers "
+        "(equal, up 2-8x, down 2-8x), same clock pairs, random sub-word writes with byte enables, pauses, cmd.last, interleaved reads, "
+        "ordered fills followed by immediate overwrites, one-cycle flush pulses; a case = one read word judged against the bytes most "
+        "recently written (or one memory snapshot compared with the sys-domain port)")
 TRUSTED = ["Migen's simulator treats MultiReg as two plain registers: metastability and sampling of a changing multi-bit bus are outside the model (that is what the gray code is for)",
            "AsyncResetSynchronizer / with_common_rst is not used by LiteDRAMNativePortCDC and not modelled"]
-ASSUMPTIONS = ["stream masters hold valid and payload until ready"]
+ASSUMPTIONS = ["stream masters hold valid and payload until ready",
+               "get_port scenario: a write's data is offered with its command; same-type commands inside one wide word ascend unless separated by cmd.last "
+               "(up-converter's documented limitation; in half of the runs only where the converter really merges, the master then holds its "
+               "address lines while idle); controller stub: serial, waits for the master's wdata.valid"]
 
 
 def mism(r, where, **kw):
@@ -172,10 +179,283 @@ def job(args):
     return r
 
 
+def getport_sim(c, rnd, ncycles, cd="usr"):
+    """real LiteDRAMCrossbar.get_port(clock_domain="usr", data_width=udw) over a serial behavioural controller"""
+    from migen import Module, run_simulation
+    from litedram.common import LiteDRAMInterface, GeomSettings
+    from litedram.core.crossbar import LiteDRAMCrossbar
+
+    class S: pass
+    st = S(); st.geom = GeomSettings(c["bankbits"], 4, 5)
+    st.phy = S(); st.phy.nranks = 1; st.phy.dfi_databits = c["dfi"]; st.phy.nphases = 2
+    st.phy.read_latency = c["rl"]; st.phy.write_latency = c["wl"]
+    st.cmd_buffer_depth = 8; st.address_mapping = "ROW_BANK_COL"
+
+    class Dut(Module):
+        def __init__(self):
+            self.interface = LiteDRAMInterface(2, st)
+            self.submodules.xbar = LiteDRAMCrossbar(self.interface)
+            self.port = self.xbar.get_port(mode="both", data_width=c["udw"], clock_domain=cd)
+    dut = Dut()
+    itf = dut.interface
+    ndw = itf.data_width
+    nbanks = itf.nbanks
+    banks = [getattr(itf, "bank%d" % n) for n in range(nbanks)]
+    master = dut.xbar.masters[0]
+    port = dut.port
+    udw = c["udw"]; ub = udw // 8
+    ops = c["ops"]          # list of (kind, addr, data, we, last, gap)
+    log = dict(rd=[], ncmd=0, nw=0, native=[], done=False, mem={}, quiet=0, snap=None)
+    nreads = sum(1 for o in ops if o[0] == "r")
+
+    def user():
+        # synchronous process: reads = this period, writes = next period.  A write's data is offered together with its command;
+        # the next command is offered once both have been taken.
+        k = 0; cv = 0; wv = 0; gap = ops[0][5] if ops else 0
+        rready = 0
+        idle = 0
+        hold = 0
+        for cyc in range(ncycles * max(1, -(-c['ps'] // c['pu']))):
+            if cv and (yield port.cmd.ready):
+                cv = 0; log["ncmd"] += 1
+            if wv and (yield port.wdata.ready):
+                wv = 0; log["nw"] += 1
+            if rready and (yield port.rdata.valid):
+                log["rd"].append((yield port.rdata.data))
+            if k < len(ops) and not cv and not wv and log["ncmd"] == k and not (k == c["nmain"] and hold is not None):
+                if gap > 0:
+                    gap -= 1
+                else:
+                    o = ops[k]; cv = 1; wv = int(o[0] == "w")
+                    yield port.cmd.addr.eq(o[1]); yield port.cmd.we.eq(int(o[0] == "w")); yield port.cmd.last.eq(o[4])
+                    if wv:
+                        yield port.wdata.data.eq(o[2]); yield port.wdata.we.eq(o[3])
+            if log["ncmd"] == k + 1 and not cv and not wv:
+                k += 1
+                gap = ops[k][5] if k < len(ops) else 0
+            yield port.cmd.valid.eq(cv)
+            if not cv and c["stale"]:
+                yield port.cmd.addr.eq(rnd.getrandbits(len(port.cmd.addr))); yield port.cmd.we.eq(rnd.getrandbits(1))
+            yield port.wdata.valid.eq(wv)
+            rready = int(rnd.random() < c["p_r"])
+            yield port.rdata.ready.eq(rready)
+            # after the main part: (optional one-cycle flush pulse,) wait until the controller side has been quiet, take a
+            # snapshot of the memory, then go on with the read-back
+            fl = 0
+            if k == c["nmain"] and not cv and not wv and hold is not None:
+                hold += 1
+                if c["pulse"] and hold == 3:
+                    fl = 1
+                if not c["pulse"]:
+                    fl = 1
+                if hold > 20 and log["quiet"] > 150:
+                    log["snap"] = dict(log["mem"]); hold = None
+            yield port.flush.eq(fl if k < len(ops) else 1)
+            if k >= len(ops):
+                idle += 1
+                if (len(log["rd"]) >= nreads and idle > 60) or idle > 3000 * max(1, -(-c["ps"] // c["pu"])):
+                    break
+            yield
+        log["done"] = (k >= len(ops))
+
+    def ctrl():
+        mem = log["mem"]
+        rq = {}          # cycle -> data to drive on interface.rdata
+        cyc = 0
+        state = "idle"; n = 0; addr = 0; we = 0; wait = 0; wcap = -1
+        quiet = 0
+        while quiet < 3000:
+            quiet += 1
+            log["quiet"] = quiet
+            # read data due in this cycle's writes (visible next period)
+            if wcap == cyc:
+                d = (yield itf.wdata); m = (yield itf.wdata_we)
+                old = mem.get((n, addr), 0)
+                for b in range(ndw // 8):
+                    if (m >> b) & 1:
+                        old = (old & ~(0xff << (8 * b))) | (d & (0xff << (8 * b)))
+                mem[(n, addr)] = old
+                log["native"].append(("w", n, addr, m))
+                wcap = -1; state = "idle"
+            if state == "idle":
+                cand = []
+                for i in range(nbanks):
+                    if (yield banks[i].valid):
+                        cand.append(i)
+                if cand:
+                    quiet = 0
+                    n = rnd.choice(cand); addr = (yield banks[n].addr); we = (yield banks[n].we)
+                    yield banks[n].ready.eq(1); state = "acc"
+            elif state == "acc":
+                yield banks[n].ready.eq(0)
+                wait = rnd.choice([0, 1, 2, 5]); state = "data"
+            elif state == "data":
+                if wait > 0:
+                    wait -= 1
+                elif we:
+                    if (yield master.wdata.valid):
+                        yield banks[n].wdata_ready.eq(1); state = "wpulse"
+                else:
+                    yield banks[n].rdata_valid.eq(1); state = "rpulse"
+            elif state == "wpulse":
+                yield banks[n].wdata_ready.eq(0)
+                wcap = cyc + c["wl"] + 1          # master.wdata.ready is high in period (pulse period) + wl
+                state = "wwait"
+                if c["wl"] == 0:
+                    pass
+            elif state == "rpulse":
+                yield banks[n].rdata_valid.eq(0)
+                rq[cyc + c["rl"]] = mem.get((n, addr), 0)
+                log["native"].append(("r", n, addr, 0))
+                state = "idle"
+            if cyc in rq:
+                yield itf.rdata.eq(rq.pop(cyc))
+            cyc += 1
+            yield
+            if log["done"] and quiet > 200:
+                break
+    if cd == "sys":
+        run_simulation(dut, {"sys": [user(), ctrl()]}, clocks={"sys": (c["ps"], c["phs"])})
+    else:
+        run_simulation(dut, {"usr": [user()], "sys": [ctrl()]}, clocks={"sys": (c["ps"], c["phs"]), "usr": (c["pu"], c["phu"])})
+    return log
+
+def gp_ops(rnd, udw, ndw, aw, n, conservative=True, pulse=False):
+    """main part + read-back of every touched address; returns (ops, nmain)"""
+    ub = udw // 8
+    ratio = max(1, ndw // udw)
+    words = [rnd.getrandbits(aw - 3) << 3 for _ in range(3)]    # a few native neighbourhoods
+    ops = []
+    touched = set()
+    full = (1 << ub) - 1
+    while len(ops) < n:
+        base = rnd.choice(words)
+        gap = rnd.choice([0, 0, 0, 0, 1, 2, 6, 12])
+        m = rnd.random()
+        if m < 0.25 and ratio > 1 and not conservative:
+            # fill one wide word in order (pauses anywhere), then overwrite its first chunks straight away
+            wbase = (base // ratio) * ratio
+            for ch in range(ratio):
+                ops.append(("w", wbase + ch, rnd.getrandbits(udw), full, 0, rnd.choice([0, 0, 0, 3, 9]))); touched.add(wbase + ch)
+            for ch in range(rnd.randrange(1, ratio)):
+                ops.append(("w", wbase + ch, rnd.getrandbits(udw), full, 0, 0)); touched.add(wbase + ch)
+            continue
+        a = (base + rnd.randrange(2 * ratio)) % (1 << aw)
+        if rnd.random() < 0.5 and ops:
+            a = (ops[-1][1] + 1) % (1 << aw)       # ascending runs
+        if rnd.random() < 0.7:
+            we = rnd.choice([full, full, rnd.getrandbits(ub)])
+            ops.append(("w", a, rnd.getrandbits(udw), we, int(rnd.random() < 0.2), gap)); touched.add(a)
+        else:
+            ops.append(("r", a, 0, 0, int(rnd.random() < 0.2), gap)); touched.add(a)
+    if pulse:
+        # end the main part with an open group of writes: a complete word, then its first chunks again, no cmd.last
+        wbase = (rnd.choice(words) // ratio) * ratio
+        ops[-1] = ops[-1][:4] + (1,) + ops[-1][5:]
+        for ch in range(ratio):
+            ops.append(("w", wbase + ch, rnd.getrandbits(udw), full, 0, 0)); touched.add(wbase + ch)
+        for ch in range(max(1, ratio // 2)):
+            ops.append(("w", wbase + ch, rnd.getrandbits(udw), full, 0, 0))
+    else:
+        ops[-1] = ops[-1][:4] + (1,) + ops[-1][5:]
+    # the up-converter's documented limitation: same-type commands inside one wide word must ascend unless separated by cmd.last.
+    # conservative: every non-ascending pair is separated.  Otherwise (the master holds its address lines while idle, so
+    # the converter's grouping is determined by the command sequence alone): only where the converter would really merge
+    # out of order (a group that is complete commits by itself).
+    if conservative:
+        for j in range(len(ops) - 1):
+            p, q = ops[j], ops[j + 1]
+            if p[0] == q[0] and p[1] // ratio == q[1] // ratio and q[1] % ratio <= p[1] % ratio:
+                ops[j] = p[:4] + (1,) + p[5:]
+    else:
+        grp = None      # (kind, word, set of chunks) of the open group
+        for j in range(len(ops)):
+            q = ops[j]
+            w, ch = q[1] // ratio, q[1] % ratio
+            if grp and grp[0] == q[0] and grp[1] == w:
+                if ch > max(grp[2]):
+                    grp[2].add(ch)
+                else:
+                    ops[j - 1] = ops[j - 1][:4] + (1,) + ops[j - 1][5:]
+                    grp = [q[0], w, {ch}]
+            else:
+                grp = [q[0], w, {ch}]
+            if ops[j][4] or len(grp[2]) == ratio:
+                grp = None
+    nmain = len(ops)
+    for a in sorted(touched):
+        ops.append(("r", a, 0, 0, 0, 0))
+    return ops, nmain
+
+def gp_golden(ops, udw):
+    ub = udw // 8
+    mem = {}; out = []
+    for o in ops:
+        if o[0] == "w":
+            old = mem.get(o[1], 0)
+            for b in range(ub):
+                if (o[3] >> b) & 1:
+                    old = (old & ~(0xff << (8 * b))) | (o[2] & (0xff << (8 * b)))
+            mem[o[1]] = old
+        else:
+            out.append(mem.get(o[1], 0))
+    return out
+
+
+def getport_job(args):
+    """the glue in `LiteDRAMCrossbar.get_port(clock_domain=..., data_width=...)`: the real crossbar with the CDC and the width
+    converter it inserts, over a serial behavioural controller; judged at the user port (read data = the bytes most recently
+    written, in command order) and, for the flush-pulse variant, against the same traffic on a port in the sys domain"""
+    seed, idx, tier = args
+    from migen import log2_int
+    rnd = random.Random("c08gp-%d-%d" % (seed, idx))
+    dfi = rnd.choice([16, 32]); ndw = dfi * 2
+    udw = rnd.choice([8, 16, 32, 64, 128]) if idx % 3 else rnd.choice([x for x in (8, 16, 32) if x < ndw])
+    pu, ps = rnd.choice([(4, 4), (4, 8), (8, 4), (6, 10), (10, 6), (2, 14), (14, 2), (6, 8), (4, 30), (30, 4)])
+    c = dict(bankbits=1, dfi=dfi, rl=rnd.choice([1, 2, 4]), wl=rnd.choice([1, 2]), udw=udw, pu=pu, phu=rnd.randrange(pu), ps=ps, phs=rnd.randrange(ps),
+             p_r=rnd.choice([0.3, 0.8, 1.0]), stale=idx % 2 == 0, pulse=(idx % 4 == 1 and udw < ndw))
+    aw = 1 + 4 + 5 - 2 + (log2_int(ndw // udw) if udw < ndw else -log2_int(udw // ndw))
+    c["ops"], c["nmain"] = gp_ops(rnd, udw, ndw, aw, 40 if tier == "quick" else 120, c["stale"], c["pulse"])
+    st = rnd.getstate()
+    log = getport_sim(c, rnd, 20000 if tier == "quick" else 60000)
+    exp = gp_golden(c["ops"], udw)
+    r = Result()
+    r.evaluations += len(exp) + 1
+    for i in range(len(log["rd"])):
+        r.distinct.add(("gp", idx, i))
+    shape = "equal" if udw == ndw else ("up%d" % (ndw // udw) if udw < ndw else "down%d" % (udw // ndw))
+    r.coverage["getport_runs"] = {shape: 1}
+    r.coverage["getport_native_commands"] = len(log["native"])
+    r.coverage["getport_user_reads"] = len(log["rd"])
+    what = None
+    if not log["done"]:
+        what = "the port did not take all %d commands (hang)" % len(c["ops"])
+    elif log["rd"] != exp:
+        k = next((i for i, (a, b) in enumerate(zip(log["rd"], exp)) if a != b), min(len(log["rd"]), len(exp)))
+        what = ("read %d returned %s, the bytes most recently written are %s" % (k, hex(log["rd"][k]), hex(exp[k])) if k < min(len(log["rd"]), len(exp))
+                else "%d read words returned for %d read commands" % (len(log["rd"]), len(exp)))
+    elif c["pulse"]:
+        rnd.setstate(st)
+        ref = getport_sim(c, rnd, 20000 if tier == "quick" else 60000, cd="sys")
+        r.evaluations += 1
+        r.coverage["getport_flush_pulse_runs"] = 1
+        if ref["rd"] == exp and ref["snap"] is not None and ref["snap"] != log["snap"]:
+            what = "after a one-cycle flush and a quiet period the memory differs from the same traffic on a sys-domain port (a write was not delivered)"
+    if what:
+        r.violations.append(dict(signature="c08-getport", what="get_port(clock_domain='usr', data_width=%d) on a %d-bit controller, usr period %d/phase %d, sys period %d/phase %d: %s"
+                                 % (udw, ndw, pu, c["phu"], ps, c["phs"], what), replay=dict(seed=seed, idx=idx, kind="getport", config={k: v for k, v in c.items() if k != "ops"}, ops=c["ops"][:c["nmain"]])))
+    return r
+
+
+def _dispatch(j):
+    return getport_job(j[1]) if j[0] == "gp" else job(j[1])
+
+
 def run(tier, seed):
     n = 96 if tier == "quick" else 400
+    ngp = 64 if tier == "quick" else 300
     res = Result()
-    for r in core.pmap(job, [(seed, i, tier) for i in range(n)]):
+    for r in core.pmap(_dispatch, [("cdc", (seed, i, tier)) for i in range(n)] + [("gp", (seed, i, tier)) for i in range(ngp)]):
         res.merge(r)
     return res
 
